@@ -77,7 +77,7 @@ def _build(kind: str, cn: str = "localhost", label: str | None = None):
         .not_valid_after(now + datetime.timedelta(days=3650))
         .add_extension(x509.BasicConstraints(ca=True, path_length=None), critical=True)
         .add_extension(x509.SubjectAlternativeName(
-            [x509.DNSName(n) for n in dict.fromkeys([cn, "localhost", "h1", "h2", "h3"])]
+            [x509.DNSName(n) for n in dict.fromkeys([cn, "localhost", "h1", "h2", "h3", "hx1", "h_1"])]
             + [x509.IPAddress(ipaddress.ip_address("::1")), x509.IPAddress(ipaddress.ip_address("127.0.0.1"))]), critical=False)
     )
     alg = None if kind.startswith("ed") else hashes.SHA256()
